@@ -525,6 +525,18 @@ func (r *runner) checkFacts() bool {
 		if fee != d.fee || vs != d.vsize || ss != d.ssize || sz != d.size || bits != d.bits {
 			return false
 		}
+		if r.pol.disablePriority {
+			continue // lines without priority facts (older corpus lines) are only valid with priority relay off
+		}
+		vals, ps := r.u.prioFacts(d)
+		if ps != d.prioSize {
+			return false
+		}
+		for i := range d.ins {
+			if d.ins[i].value != vals[i] {
+				return false
+			}
+		}
 	}
 	return true
 }
